@@ -320,6 +320,7 @@ class SinexParser(Parser):
             usecols=usecols,
             converters=converters,
             autostrip=True,
+            comments=None,  # '#' is an ordinary character in SINEX, comment lines start with '*' and are already removed
             encoding=self.file_encoding or "bytes",  # TODO: Use None instead
         )
 
